@@ -204,6 +204,49 @@ def fixture_facts(name="positive"):
         return json.load(fh)
 
 
+def shapes_facts(tier="quick", root=None):
+    """Compile the generated family of derive inputs (shapes/gen.py) against the CURRENT tree's specs + specs-derive with the
+    fact driver and return (facts of the `shapes` crate, manifest).  The derive macros are executed by rustc while compiling the
+    family (the only way a derive is ever used); the generated conversions themselves are never run."""
+    root = root or repo()
+    sys.path.insert(0, os.path.join(VERIF, "shapes"))
+    import importlib
+    gen = importlib.import_module("gen")
+    src, manifest = gen.gen(tier)
+    h = hashlib.sha256((tree_hash(root) + src).encode()).hexdigest()[:20]
+    outdir = os.path.join(CACHE, "shapes-facts", tier + "-" + h)
+    fact = os.path.join(outdir, "shapes.facts.json")
+    if not os.path.exists(fact):
+        ensure_driver()
+        os.makedirs(outdir, exist_ok=True)
+        with open(os.path.join(CACHE, "lock-shapes"), "w") as lk:
+            fcntl.flock(lk, fcntl.LOCK_EX)
+            if not os.path.exists(fact):
+                crate = os.path.join(CACHE, "shapes-crate")
+                os.makedirs(os.path.join(crate, "src"), exist_ok=True)
+                with open(os.path.join(crate, "Cargo.toml"), "w") as fh:
+                    fh.write('[package]\nname = "shapes"\nversion = "0.0.0"\nedition = "2021"\n\n[workspace]\n\n[dependencies]\n'
+                             'specs = { path = "%s", features = ["serde", "derive"] }\nserde = { version = "1", features = ["derive"] }\n' % root)
+                shutil.copy(os.path.join(root, "Cargo.lock"), os.path.join(crate, "Cargo.lock"))
+                with open(os.path.join(crate, "src", "lib.rs"), "w") as fh:
+                    fh.write(src)
+                target = os.path.join(CACHE, "target", "shapes")
+                for fp in glob.glob(os.path.join(target, "debug", ".fingerprint", "shapes-*")):
+                    shutil.rmtree(fp, ignore_errors=True)
+                env = dict(os.environ)
+                env.update({"CARGO_NET_OFFLINE": "true", "LD_LIBRARY_PATH": sysroot_lib() + ":" + os.environ.get("LD_LIBRARY_PATH", ""),
+                            "RUSTFLAGS": "-Zmir-opt-level=0 -Awarnings", "RUSTC_WORKSPACE_WRAPPER": DRIVER, "CARGO_TARGET_DIR": target,
+                            "FACTS_OUT": outdir, "FACTS_CRATES": "shapes", "FACTS_CONFIG": "shapes-" + tier, "FACTS_TREE": h})
+                r = subprocess.run(["cargo", "+nightly", "check", "--offline", "--lib"], cwd=crate, env=env, capture_output=True, text=True)
+                if r.returncode != 0 or not os.path.exists(fact):
+                    # a family member that no longer compiles is a verdict about the derive, not an infrastructure problem: report the compiler's words
+                    if "could not compile `shapes`" not in r.stderr:
+                        raise InfraError("the tree (specs / specs-derive) does not compile, nothing analysed:\n" + r.stderr[-4000:])
+                    return None, {"error": r.stderr[-6000:], "manifest": manifest}
+    with open(fact) as fh:
+        return json.load(fh), manifest
+
+
 if __name__ == "__main__":
     for c in sys.argv[1:] or ["A"]:
         t = time.time()
